@@ -322,6 +322,13 @@ theorem pumpInv_step (e : Ep) (ev : Ev) (hi : PumpInv e) : PumpInv (step e ev).1
       · split
         · exact pumpInv_of_view (by rw [pv_doClose]; rfl) hi
         · exact pumpInv_sendSessTerm _ _ _ (pumpInv_of_view rfl hi)
+  | modulate raw =>
+    simp only []
+    split
+    · exact hi
+    · split
+      · exact pumpInv_of_view rfl hi
+      · exact hi
 
 theorem pumpInv_init (cfg : Cfg) : PumpInv { cfg := cfg } := by
   simp [PumpInv, encodeAll]
